@@ -427,7 +427,13 @@ func (o *RtmpOrigin) Start() {
 		code = "NetStream.Publish.Start"
 	}
 	info := ref.AVal{Kind: ref.AObject, Pairs: []ref.APair{{"level", str("status")}, {"code", str(code)}, {"description", str("ok")}}}
-	o.send(ref.Msg{Csid: 5, Type: 20, Msid: 1, Payload: amfCmd("onStatus", 0, ref.AVal{Kind: ref.ANull}, info)})
+	ms := []ref.Msg{{Csid: 5, Type: 20, Msid: 1, Payload: amfCmd("onStatus", 0, ref.AVal{Kind: ref.ANull}, info)}}
+	if o.Role != "publish" {
+		// an eager origin: the first media arrives in the same segment as the status (one Feed, so a client that
+		// reads through a buffer has it before it has acted on the status)
+		ms = append(ms, o.W.OriginEager...)
+	}
+	o.send(ms...)
 	o.Started = true
 }
 
